@@ -1,12 +1,13 @@
 (** Small helpers shared by the generated files: Python's == on lists / optionals. *)
 From Coq Require Import List Bool.
 
-Fixpoint list_eqb {A} (eqb : A -> A -> bool) (a b : list A) : bool :=
-  match a, b with
-  | nil, nil => true
-  | x :: a', y :: b' => eqb x y && list_eqb eqb a' b'
-  | _, _ => false
-  end.
+Definition list_eqb {A} (eqb : A -> A -> bool) : list A -> list A -> bool :=
+  fix go (a b : list A) : bool :=
+    match a, b with
+    | nil, nil => true
+    | x :: a', y :: b' => eqb x y && go a' b'
+    | _, _ => false
+    end.
 
 Definition option_eqb {A} (eqb : A -> A -> bool) (a b : option A) : bool :=
   match a, b with
